@@ -310,6 +310,27 @@ func run(ctx *bex.Ctx) {
 	ctx.SpaceDone("every operator x {c op x, x op c, c1 op c2, (c1 op x) op c2, (x op c1) op c2, c1 op (x op c2), c1 op (c2 op x), (x op c1) op (x op c2)} over 12 constants of every sort x 8 argument values; unary/if/switch/index/member/method/closure-application/try on every constant")
 
 	// (2) typed grammar with counting host functions, constants and a single int argument
+	// (1b) switch: the first label equal to the subject wins, whatever is constant; labels and results count
+	ctx.Space("switch-matrix")
+	{
+		I, op, tick := vlang.I, vlang.Op, func(i int64) *vlang.Node { return vlang.StaticN("tick", vlang.I(i)) }
+		subjects := []*vlang.Node{I(2), vlang.Bo(true), vlang.S("a"), x, vlang.V("k"), op("+", I(1), I(1))}
+		labels := []*vlang.Node{I(2), I(1), op("+", I(1), I(1)), x, op("=", x, I(2)), vlang.Bo(true), vlang.S("a"), vlang.V("k"), tick(2)}
+		wrap := func(n *vlang.Node) *vlang.Node { return vlang.LetN("k", I(2), n) }
+		idx = 0
+		for _, sub := range subjects {
+			for _, l1 := range labels {
+				for _, l2 := range labels {
+					emit(wrap(vlang.SwitchN(sub, tick(99), l1, tick(11), l2, tick(12))))
+					for _, l3 := range labels {
+						emit(wrap(vlang.SwitchN(sub, I(99), l1, I(11), l2, tick(12), l3, I(13))))
+					}
+				}
+			}
+		}
+	}
+	ctx.SpaceDone("switch with 2 and 3 cases: 6 subjects (constants, constant expression, the argument, a let-bound constant) x 9 labels per case (constants, constant expressions, the argument, a comparison with it, a counting call) with counting results x 8 argument values")
+
 	ctx.Space("typed-grammar-with-counters")
 	maxN := 7
 	if !ctx.Quick() {
